@@ -77,6 +77,18 @@ func runC05(p *Prog, r *Report) {
 	if want("C05.8") {
 		ruleAtomicAlignment(p, r, "C05.8")
 	}
+	if want("C05.15") {
+		// every read uses its own view's sequence (shared with C03.5)
+		ruleReadSeqOrigin(p, r, "C05.15")
+	}
+	if want("C05.14") {
+		// a read fixes and registers its cut before reading (shared with C03.1)
+		ruleReadsRegistered(p, r, "C05.14")
+	}
+	if want("C05.13") {
+		// the registered cuts are what compaction respects (shared with C03)
+		ruleSnapshotList(p, r, "C05.13")
+	}
 	if want("C05.12") {
 		ruleMemInsertSeq(p, r, "C05.12")
 	}
